@@ -54,15 +54,29 @@ def _defs_values(ctx, fn, use: ast.AST, name: str) -> List[Tuple[object, ast.AST
     return out
 
 
-def _guard_conditions(fn_node: ast.AST, node: ast.AST) -> List[Tuple[str, bool]]:
-    """[(test text, polarity)] of the if-statements enclosing node"""
+def _guard_conditions(fn_node: ast.AST, node: ast.AST, ifexp: bool = False) -> List[Tuple[str, bool]]:
+    """[(test text, polarity)] of the conditions under which node runs, innermost first: the
+    if-statements enclosing it, and the guard clauses before it in the same statement list
+    (`if T: return / raise / continue / break` contributes (T, False) to everything behind it, exactly
+    as the `else` of that if-statement would)"""
     out = []
     child = node
     for anc in A.ancestors(node):
+        for fld in ("body", "orelse", "finalbody"):
+            seq = getattr(anc, fld, None)
+            if isinstance(seq, list) and child in seq:
+                for prev in reversed(seq[: seq.index(child)]):
+                    if isinstance(prev, ast.If) and not prev.orelse and A.always_leaves(prev.body):
+                        out.append((A.unparse(prev.test), False))
         if isinstance(anc, ast.If):
             if child in anc.body:
                 out.append((A.unparse(anc.test), True))
             elif child in anc.orelse:
+                out.append((A.unparse(anc.test), False))
+        elif ifexp and isinstance(anc, ast.IfExp):
+            if child is anc.body:
+                out.append((A.unparse(anc.test), True))
+            elif child is anc.orelse:
                 out.append((A.unparse(anc.test), False))
         if anc is fn_node:
             break
@@ -177,8 +191,12 @@ def _assumptions(ctx, fn, exprs: List[ast.AST], use: ast.AST) -> List[Dict[str, 
                             atoms.add(t)
                         if v is not None:
                             atoms |= _atoms(v)
-    atoms = sorted(atoms)[:4]
-    outs = [{}]
+    # conditions that hold at the use itself are not enumerated: they are facts
+    fixed = {}
+    for t, pol in _guard_conditions(fn.node, use):
+        fixed.setdefault(t, pol)
+    atoms = sorted(a for a in atoms if a not in fixed)[:4]
+    outs = [dict(fixed)]
     for a in atoms:
         outs = [dict(o, **{a: b}) for o in outs for b in (True, False)]
     return outs
@@ -256,8 +274,10 @@ class Gadget:
     """what loop_restructure_helper builds, read from its constructor sites"""
 
     def __init__(self, ctx) -> None:
+        global _RL_CTX
         self.ctx = ctx
         self.fn = fn = _helper(ctx)
+        _RL_CTX = (ctx, fn)
         br = _ctors(ctx, fn, "SyntheticBranch")
         self.latch = next((c for c, n in br if n == "SyntheticExitingLatch"), None)
         self.exitb = next((c for c, n in br if n == "SyntheticExitBranch"), None)
@@ -356,11 +376,21 @@ class Gadget:
         return out
 
 
+_RL_CTX = None  # set by Gadget.__init__: the program in which callee names are resolved by role
+
+
 def _rl(e: ast.AST) -> Optional[Tuple[str, str]]:
-    """(table text, value text) when e is reverse_lookup(T, x)"""
-    if isinstance(e, ast.Call) and (A.dotted(e.func) or "").split(".")[-1] == "reverse_lookup" and len(e.args) == 2:
-        return A.unparse(e.args[0]), A.unparse(e.args[1])
-    return None
+    """(table text, value text) when e calls a reverse-lookup function (recognised by role, see
+    common.as_reverse_lookup: a first-match scan of `table.items()` returning the key)"""
+    if not isinstance(e, ast.Call) or _RL_CTX is None:
+        return None
+    from .common import reverse_lookup_call
+
+    ctx, fn = _RL_CTX
+    r = reverse_lookup_call(ctx.prog, fn, e)
+    if r is None or r[1] is None or r[2] is None:
+        return None
+    return A.unparse(r[1]), A.unparse(r[2])
 
 
 @rule("CTRL-2", 4, "every control value is looked up in (or shares its key with) the table of the block that will read that variable")
